@@ -102,6 +102,16 @@ var ErrInvalidSignatureType = errors.New("invalid signature type")
 
 // Package writes a new deb package to the given writer using the given info.
 func (d *Deb) Package(info *nfpm.Info, deb io.Writer) (err error) { // nolint: funlen
+	// the ar writer does not report every failed write (it ignores the result of
+	// writing a padding byte), so remember the first one ourselves
+	latch := &errLatchWriter{Writer: deb}
+	deb = latch
+	defer func() {
+		if err == nil {
+			err = latch.err
+		}
+	}()
+
 	info = ensureValidArch(info)
 
 	err = nfpm.PrepareForPackager(withChangelogIfRequested(info), packagerName)
@@ -313,6 +323,20 @@ func addArFile(w *ar.Writer, name string, body []byte, date time.Time) error {
 	}
 	_, err := w.Write(body)
 	return err
+}
+
+// errLatchWriter remembers the first error of the underlying writer.
+type errLatchWriter struct {
+	io.Writer
+	err error
+}
+
+func (l *errLatchWriter) Write(p []byte) (int, error) {
+	n, err := l.Writer.Write(p)
+	if err != nil && l.err == nil {
+		l.err = fmt.Errorf("cannot write deb file: %w", err)
+	}
+	return n, err
 }
 
 type nopCloser struct {
